@@ -4,6 +4,9 @@
 # without it), runs the given checks against it in /repo (applied, then reverted) and files it under /verif/seeded/.
 set -u
 cd /verif; . ./env.sh
+# runs against a changed tree must not leave their evidence behind
+rm -rf .build/evidence.keep; cp -r evidence .build/evidence.keep 2>/dev/null
+restore_evidence() { if [ -d .build/evidence.keep ]; then rm -rf evidence; mv .build/evidence.keep evidence; fi; }
 P=$1; M=$2; shift 2
 CHECKS="${*:-$P}"
 SRC=/tmp/seed-$P/$M
@@ -32,7 +35,7 @@ if [ $ok = 0 ]; then echo "$ID: NOT CONFIRMED (not kept)"; exit 4; fi
 # run the checks against it
 git -C /repo diff --quiet || { echo "repo dirty"; exit 2; }
 git -C /repo apply $SRC/patch.diff || exit 3
-trap 'git -C /repo checkout -- . ; git -C /repo clean -fdq' EXIT
+trap 'git -C /repo checkout -- . ; git -C /repo clean -fdq; restore_evidence' EXIT
 results=""
 for c in $CHECKS; do
   out=$(./run.sh $c quick 2>&1); rc=$?
@@ -41,7 +44,7 @@ for c in $CHECKS; do
   echo "$ID: check $c rc=$rc violations=$nv :: $first"
   results="$results{\"check\":\"$c\",\"tier\":\"quick\",\"exit\":$rc,\"violation_lines\":$nv},"
 done
-git -C /repo checkout -- . ; git -C /repo clean -fdq; trap - EXIT
+git -C /repo checkout -- . ; git -C /repo clean -fdq; restore_evidence; trap - EXIT
 mkdir -p seeded/$ID
 cp $SRC/patch.diff seeded/$ID/patch.diff
 cp $SRC/demo_test.go seeded/$ID/demo_test.go
